@@ -27,6 +27,9 @@ SRC = {
     12: "def fx(a: Qfixed[1,2]) -> bool:\n    return a == 1.0",
     13: "def fc(a: Qchar) -> bool:\n    return a == '1'",
     14: "def ps(w: Parameter[Qlist[Qint[2], 2]], a: Qint[2]) -> Qint[2]:\n    return a + sum(w) if any([x == 3 for x in w]) else a",
+    # a function NAMED like a name the library's sources use (Tuple), and a later source that needs that name
+    15: "def Tuple(a: bool, b: bool) -> bool:\n    return a != b",
+    16: "def tp(t: Tuple[bool, bool]) -> bool:\n    return t[0] and not t[1]",
 }
 
 
@@ -170,10 +173,10 @@ def run(pid):
     use_repo()  # the parent imports the library and does nothing else: children are fresh interpreters
     with Scratch("C10") as sc:
         cfg = "SPECIFICATION Spec\nCONSTANTS MaxLen = %d\n MaxLive = 3\n Progs = {%s}\nINVARIANT Emit\nCHECK_DEADLOCK FALSE\n"
-        r = tlc.run_model("Session", cfg % (2, "1,2,3,4,5,6,7,8,9,10,11,12,13,14"), sc, workers=8, timeout=900, tags=("S",), heap="6g")
+        r = tlc.run_model("Session", cfg % (2, "1,2,3,4,5,6,7,8,9,10,11,12,13,14,15,16"), sc, workers=8, timeout=900, tags=("S",), heap="6g")
         hists = [json.loads(v[1]) for v in r["prints"]["S"]]
         gst = dict(r["stats"])
-        r3 = tlc.run_model("Session", cfg % (3, "1,2,3,4,7,9,11,12,14" if quick else "1,2,3,4,5,6,7,8,9,10,11,12,13,14"), sc, workers=8, timeout=1800, tags=("S",), heap="8g")
+        r3 = tlc.run_model("Session", cfg % (3, "1,2,3,4,7,9,11,12,14,15,16" if quick else "1,2,3,4,5,6,7,8,9,10,11,12,13,14,15,16"), sc, workers=8, timeout=1800, tags=("S",), heap="8g")
         h3 = [h for h in (json.loads(v[1]) for v in r3["prints"]["S"]) if len(h) == 3]
         for k in ("generated", "distinct"):
             gst[k] = gst.get(k, 0) + r3["stats"].get(k, 0)
